@@ -95,6 +95,14 @@ def _run(chk):
     for k in range(n):
         c = corpus[k] if k < len(corpus) else c02.gen_case(rng, chk.tier)
         c['max_size'] = linkgen.LIMIT
+        if k >= len(corpus) and rng.random() < 0.3 and len(c['frames']) >= 3:
+            # a stretch of 2-3 consecutive frames without any feature (dropped video frames): the entry points must
+            # count them as elapsed frames alike; memory shorter or longer than the stretch
+            pos = rng.randint(1, len(c['frames']) - 1)
+            nd0 = c['frames'][0].shape[1]
+            c['frames'] = c['frames'][:pos] + [np.empty((0, nd0))] * rng.randint(2, 3) + c['frames'][pos:]
+            c['memory'] = rng.choice([1, 1, 2, 3])
+            chk.tally('movie with a stretch of blank frames')
         frames, sr, mem = c['frames'], c['sr'], c['memory']
         if any(len(f) == 0 for f in frames[:1]) or linkgen.max_inrange(frames, sr, mem) > 8:
             chk.tally('skipped'); continue
